@@ -448,10 +448,10 @@ class OrderedHashWriter(HashWriter):
         # Keep an array of the positions of all keys
         self.index = GrowableArray("H")
         # Keep track of the last key added
-        self.lastkey = emptybytes
+        self.lastkey = None
 
     def add(self, key, value):
-        if key <= self.lastkey:
+        if self.lastkey is not None and key <= self.lastkey:
             raise ValueError("Keys must increase: %r..%r"
                              % (self.lastkey, key))
         self.index.append(self.dbfile.tell())
